@@ -207,17 +207,26 @@ HAND = [
     ("long-chains", "[C:1][Br:2].[C:3][I:4]>>[C:1][I:4].[C:3][Br:2]", ["C" * 52 + "Br." + "C" * 50 + "I"], [False], ["I"]),
     ("three-component", "[CH3:1][Br:2].[CH3:3][I:4].[CH3:5][Cl:6]>>[CH3:1][I:4].[CH3:3][Cl:6].[CH3:5][Br:2]", ["CBr.CI.CCl", "CCBr.CCI.CCCl"], [False], ["I"]),
     ("single-symmetric", "[CH3:1][CH2:2][CH3:3]>>[CH3:1][CH:2]=[CH2:3]", ["CCC", "CC(C)C", "CCCC"], [False], ["I"]),
+    # several equivalent sites x orientations: 12 embeddings, 3 reactions (the embedding cap is swept on it: THR_RULES in props/C05.py)
+    ("bromination-bare", "[C:1]=[C:2].[Br:3][Br:4]>>[C:1]([Br:3])[C:2][Br:4]", ["C=CCC=CCCC=CC.BrBr", "C=CC.BrBr"], [False], ["I"]),
     ("ring-symmetric", "[cH:1]1[cH:2][cH:3][cH:4][cH:5][cH:6]1.[Br:7][Br:8]>>[cH:1]1[cH:2][cH:3][cH:4][cH:5][c:6]1[Br:7].[BrH:8]", ["c1ccccc1.BrBr", "Cc1ccccc1.BrBr"], [False], ["I"]),
 ]
+
+
+# more embeddings than the engine's default cap of 5000 (6 x 32 x 32 = 6144): the documented guard empties the result of the
+# exhaustive search, whatever the atom order; 6 chemically different C-Br sites, so a search that returned "the first 5000"
+# instead would lose a site that depends on the order (thorough tier, oracle only)
+MANY = ("many-embeddings", "[C:1][Br:2].[C:3][I:4].[C:5][Cl:6]>>[C:1][I:4].[C:3][Cl:6].[C:5][Br:2]",
+        ["BrCC(Br)CC(Br)(C)CC(Br)CCC(Br)CCCCBr." + ".".join(["IC(I)(I)I"] * 8) + "." + ".".join(["ClC(Cl)(Cl)Cl"] * 8)], [False], ["I"])
 
 
 def hand_pairs(full_all=True):
     """full_all=False (quick tier): the full-ITS form of a hand-made rule only on its first substrate"""
     out = []
-    for name, r, subs, dirs, modes in HAND:
+    for name, r, subs, dirs, modes in HAND + ([MANY] if full_all else []):
         for inv in dirs:
             for mode in modes:
-                for core in (True, False):
+                for core in ((True,) if name == MANY[0] else (True, False)):
                     for sub in (subs if (core or full_all) else subs[:1]):
                         out.append(dict(kind="hand", name="hand:%s:%s:%s:%s:%s" % (name, "centre" if core else "full", "bwd" if inv else "fwd", mode, sub),
                                         tpl=dict(rsmi=r, core=core), sub=sub, invert=inv, mode=mode, first_sub=subs[0]))
